@@ -519,3 +519,79 @@ Proof.
   splits; auto. intro Hg. subst m. unfold guard_F2 in Hg. apply negb_false_iff in Hg.
   apply String.eqb_eq in Hg. exact Hg.
 Qed.
+
+(** * the decoded path: no double encoding, whatever the configuration *)
+
+Theorem decoded_path_preserved b u :
+  match b_rw b with
+  | Some rw =>
+    let raw' := rw_add rw ++ strip_prefix (rw_cut rw) (escaped_path (u_path u) (u_rawpath u)) in
+    wellformed raw' = true -> unescape (wire_path (create_url b u)) = unescape raw'
+  | None => unescape (wire_path (create_url b u)) = Some (u_path u)
+  end.
+Proof.
+  unfold create_url. destruct (b_rw b) as [rw|].
+  - intros raw' Hw.
+    set (up := {| u_scheme := u_scheme u; u_host := b_host b; u_path := u_path u;
+                  u_rawpath := u_rawpath u; u_query := u_query u |}).
+    pose proof (rewrite_decoded rw up) as H. cbv zeta in H. rewrite transform_path_eq in H.
+    apply H. exact Hw.
+  - unfold wire_path. simpl. apply escaped_path_decodes.
+Qed.
+
+(** * the request line *)
+
+Lemma create_url_query b u :
+  u_query (create_url b u) =
+  match b_rw b with Some rw => remove_from (rw_strip_q rw) (u_query u) | None => u_query u end.
+Proof. unfold create_url. destruct (b_rw b); reflexivity. Qed.
+
+Lemma create_url_scheme b u :
+  u_scheme (create_url b u) =
+  match b_rw b with Some rw => if is_empty (rw_scheme rw) then u_scheme u else rw_scheme rw | None => u_scheme u end.
+Proof. unfold create_url. destruct (b_rw b); reflexivity. Qed.
+
+Lemma execute_create fx r u t : execute fx r u = Some t ->
+  exists u', t = create_url (r_backend r) u' /\ u_query u' = u_query u /\ u_scheme u' = u_scheme u /\
+             u_path u' = u_path u /\
+             u_rawpath u' = match r_setting r with On => "" | _ => u_rawpath u end.
+Proof.
+  unfold execute. destruct (r_setting r).
+  - destruct (has_enc_slash (fx_c08f2 fx) (u_rawpath u)); [discriminate|]. intro H. inversion H.
+    exists u. splits; reflexivity.
+  - intro H. inversion H. eexists. splits; reflexivity.
+  - intro H. inversion H. exists u. splits; reflexivity.
+Qed.
+
+(** "original scheme ... changed only by the configured rewrite" *)
+Theorem scheme_rewritten fx r u t : execute fx r u = Some t -> u_scheme t = expected_scheme r u.
+Proof.
+  intro H. destruct (execute_create _ _ _ _ H) as (u' & Ht & _ & Hs & _). subst t.
+  rewrite create_url_scheme, Hs. unfold expected_scheme, cfg_scheme.
+  destruct (b_rw (r_backend r)); reflexivity.
+Qed.
+
+(** the request target on the wire: path (never empty), then '?' and the query if there is one *)
+Theorem request_line fx r u t : execute fx r u = Some t ->
+  wire_uri t =
+  (if is_empty (wire_path t) then "/" else wire_path t) ++
+  (let q' := match b_rw (r_backend r) with
+             | Some rw => remove_from (rw_strip_q rw) (u_query u)
+             | None => u_query u
+             end in
+   if is_empty q' then "" else String "?" q').
+Proof.
+  intro H. destruct (execute_create _ _ _ _ H) as (u' & Ht & Hq & _). subst t.
+  unfold wire_uri, request_uri, wire_path. rewrite create_url_query, Hq.
+  destruct (b_rw (r_backend r)) as [rw|].
+  - destruct (is_empty (remove_from (rw_strip_q rw) (u_query u))); [rewrite append_nil_r|]; reflexivity.
+  - destruct (is_empty (u_query u)); [rewrite append_nil_r|]; reflexivity.
+Qed.
+
+(** with nothing to remove the query is forwarded byte for byte *)
+Theorem query_untouched names q : names = [] \/ q = "" -> remove_from names q = q.
+Proof.
+  intros [H|H]; subst; unfold remove_from.
+  - destruct (is_empty q); reflexivity.
+  - reflexivity.
+Qed.
